@@ -341,6 +341,56 @@ def _serde_symmetry(R, F, ctx):
     hand_ser = {t for t, im in ser.items() if not im["loc"].get("x") and t and "::_::" not in t}
     hand_de = {t for t, im in de.items() if not im["loc"].get("x") and t and "::_::" not in t}
     R.floor("hand_written_serde_types", len(hand_ser), 6)
+    # kind agreement of the hand-written pairs: what the writer emits (a string, a string or null, or whatever an inner type's
+    # own Serialize emits) is what the reader asks for (String, Option<String>, the same inner type's Deserialize)
+    def serde_kinds(fn, writing):
+        kinds = set()
+        for c in fn.calls():
+            if fn.is_cleanup(c.bb):
+                continue
+            tr = (c.trait or "")
+            if writing and tr.endswith("::Serializer"):
+                kinds.add({"serialize_str": "str", "serialize_none": "null", "serialize_unit": "null", "serialize_some": "some"}.get(c.method or "", "other:" + (c.method or "?")))
+            if writing and tr.endswith("::Serialize") and (c.method or "") == "serialize":
+                kinds.add("delegate:" + (c.self_ty or "?").split("<")[0].split("::")[-1])
+            if not writing and tr.endswith("::Deserialize") and (c.method or "") == "deserialize":
+                st = (c.self_ty or "?")
+                if st == "std::string::String":
+                    kinds.add("str")
+                    # `let Ok(s) = String::deserialize(d) else { return Ok(empty) }`: anything that is not a string (null included)
+                    # is read as the empty value instead of being an error
+                    from enginerules import err_propagated
+                    if not err_propagated(fn, c):
+                        kinds.add("null")
+                elif st.startswith("std::option::Option<std::string::String"):
+                    kinds |= {"str", "null"}
+                else:
+                    kinds.add("delegate:" + st.split("<")[0].split("::")[-1])
+        return kinds
+    impl_fns = {}
+    for f in F.body_fns():
+        tr = f.j.get("trait") or ""
+        if "serde" in tr and (tr.endswith("::Serialize") or tr.endswith("::Deserialize")) and not f.loc.get("x") and "::_::" not in (f.j.get("self_ty") or ""):
+            impl_fns.setdefault((f.j.get("self_ty") or "").split("<")[0], {})["w" if tr.endswith("::Serialize") else "r"] = f
+    n_kinds = 0
+    for t, pr in sorted(impl_fns.items()):
+        if "w" not in pr or "r" not in pr:
+            continue
+        n_kinds += 1
+        wk, rk = serde_kinds(pr["w"], True), serde_kinds(pr["r"], False)
+        wd = {k for k in wk if k.startswith("delegate:")}
+        rd = {k for k in rk if k.startswith("delegate:")}
+        if (wd or rd) and wd != rd:
+            # one side hands over to another type's own (de)serialisation and the other does not: what that type reads or writes is
+            # outside this crate (A3) - not decided here
+            R.ok(1, sample={"rule": "SERDE hand-written pair kinds", "type": t.split("::")[-1], "writes": sorted(wk), "reads": sorted(rk), "status": "not decided (foreign delegate on one side)"})
+            continue
+        ok = bool(wk) and bool(rk) and (wk - {"some"}) <= rk and not any(k.startswith("other:") for k in wk)
+        # a writer that emits null needs a reader that accepts null; a reader may accept more than the writer emits
+        R.ob(ok, "SERDE", pr["w"].where(), "SERDE|kinds|%s" % t.split("::")[-1],
+             "%s is written as %s but read as %s: the JSON the type produces is not what its own Deserialize asks for" % (t.split("::")[-1], sorted(wk), sorted(rk)),
+             sample={"rule": "SERDE hand-written pair kinds", "type": t.split("::")[-1], "writes": sorted(wk), "reads": sorted(rk)})
+    R.floor("hand_written_serde_pairs_with_kinds", n_kinds, 6)
     for t in sorted(hand_ser | hand_de):
         R.ob(t in hand_ser and t in hand_de, "SERDE", "src", "SERDE|pair|%s" % t, "%s has a hand-written %s but no hand-written %s" % (t, "Serialize" if t in hand_ser else "Deserialize", "Deserialize" if t in hand_ser else "Serialize"),
              sample={"rule": "SERDE pair", "type": t.split("::")[-1]})
